@@ -241,12 +241,52 @@ def _brief(tr):
                       "exit": r["exit"], "files_after": len(r["files"])} for r in tr["runs"]]}
 
 
+def apalache_induction(ctx):
+    """Unbounded part: Apalache proves IndInv of spec/ParseFolderInd.tla inductive for any batch size, any number of crops, any
+    subset of single-file outputs and any number of kills, and refutes it for the two order/consultation defects."""
+    import shutil
+    import subprocess
+    import time
+    from ..core import VERIF
+    exe = shutil.which("apalache-mc")
+    if exe is None:
+        ctx.notes["apalache"] = "apalache-mc not found: unbounded induction skipped"
+        return
+    wd = os.path.join(ctx.workdir, "apalache")
+    os.makedirs(wd, exist_ok=True)
+    shutil.copy(os.path.join(VERIF, "spec", "ParseFolderInd.tla"), wd)
+    runs = [("step: IndInv /\\ Next => IndInv' (repaired order, every requested marker consulted)",
+             ["--cinit=CInitRepaired", "--init=IndInit", "--inv=IndInv", "--length=1"], "NoError"),
+            ("base: Init => IndInv", ["--cinit=CInitRepaired", "--init=Init", "--inv=IndInv", "--length=0"], "NoError"),
+            ("self-test: step must fail when the crops are written after the markers",
+             ["--cinit=CInitLegacyOrder", "--init=IndInit", "--inv=IndInv", "--length=1"], "Error"),
+            ("self-test: step must fail when the last marker (ALTO) is not consulted",
+             ["--cinit=CInitAltoNotConsulted", "--init=IndInit", "--inv=IndInv", "--length=1"], "Error")]
+    out = []
+    for name, args, want in runs:
+        t0 = time.time()
+        try:
+            p = subprocess.run([exe, "check"] + args + ["--out-dir=" + os.path.join(wd, "out"), "ParseFolderInd.tla"], cwd=wd,
+                               stdout=subprocess.PIPE, stderr=subprocess.STDOUT, text=True, timeout=900)
+        except subprocess.TimeoutExpired:
+            raise MachineryFailure("apalache-mc timed out on ParseFolderInd (%s)" % name)
+        got = "NoError" if "The outcome is: NoError" in p.stdout else ("Error" if "The outcome is: Error" in p.stdout else "?")
+        out.append({"obligation": name, "outcome": got, "wall_s": round(time.time() - t0, 1)})
+        if got != want:
+            raise MachineryFailure("apalache-mc on ParseFolderInd: %s gave %s, expected %s\n%s" % (name, got, want, p.stdout[-2000:]))
+    shutil.rmtree(wd, ignore_errors=True)
+    ctx.notes["apalache_inductive_invariant"] = out
+
+
 def check_config(ctx, c):
     lines_only = c["kinds"] == ["lines"]
     invs = [i for i in INVS if not (lines_only and i == "NeverRedoComplete")]
     mc = {"MC_PF.tla": mc_module("MC_PF", "ParseFolder", c)}
     dump = os.path.join(ctx.workdir, "graph_%d.dot" % len(ctx.tlc_runs))
-    res = ctx.tlc("MC_PF", constants=constants(c), invariants=invs, properties=["Monotone"], files=mc, workers=2,
+    # RefinesInd: seen from every page, ParseFolder is a behaviour of ParseFolderInd (the unbounded abstraction proved inductive
+    # by Apalache); meaningful when a single-file output is requested (otherwise the 'redone' ghost of the open finding is set)
+    props = ["Monotone"] + ([] if lines_only else ["RefinesInd"])
+    res = ctx.tlc("MC_PF", constants=constants(c), invariants=invs + ["PrefixOnDisk"], properties=props, files=mc, workers=2,
                   dump=dump, label="ParseFolder " + label(c), timeout=1200)
     if lines_only:
         # the repaired model keeps this one: nothing marks completion when only line crops are requested
@@ -288,6 +328,7 @@ def run(ctx):
                "equality with an uninterrupted run: bytes, after removing Created/LastChange/processingDateTime")
     P.warm()
     legacy_selftests(ctx)
+    apalache_induction(ctx)
     for c in configs(ctx.tier):
         check_config(ctx, c)
     ctx.notes["explanation"] = ("TLC exhaustive on ParseFolder per configuration (invariants %s, property Monotone), Legacy self-tests; "
